@@ -13,9 +13,9 @@ class C08(SchedProp):
     row_fn = 'c08_sched_row'
     preplaced_share = 0.0
     clauses = ['named_waiting_task_leaves_pool_canceled', 'only_named_tasks_canceled',
-               'named_task_met_later_never_started']
+               'named_task_met_later_never_started', 'named_task_never_started_after_request_consumed']
     rule = ('scheduler histories with a cancel request after ~25% of the operations (named: waiting, running, not yet '
-            'arrived and unknown uids), bystander tasks around them; non-trivial = >= 2 tasks held simultaneously and '
+            'arrived and unknown uids; also requests delivered in the middle of the queue drain), bystander tasks around them; non-trivial = >= 2 tasks held simultaneously and '
             '>= 1 task waited')
 
     def cases(self, rng, tier):
@@ -25,10 +25,15 @@ class C08(SchedProp):
             # more cancels, also for uids that arrive later
             ops = []
             uids = [r['uid'] for o in c['ops'] if o[0] == 'arrive' for r in o[1]]
+            prev = None
             for o in c['ops']:
-                if uids and rng.random() < 0.25:
+                if o[0] == 'iter' and prev is not None and prev[0] == 'arrive' and rng.random() < 0.4:
+                    # a request that arrives while the queue holding these tasks is being drained
+                    ops.append(['cancel_mid', [rng.choice([r['uid'] for r in prev[1]])]])
+                elif uids and rng.random() < 0.25:
                     ops.append(['cancel', [rng.choice(uids) for _ in range(rng.randint(1, 2))]])
                 ops.append(o)
+                prev = o
             c['ops'] = ops
             yield c
 
